@@ -77,7 +77,7 @@ def c05_shape():
 
 # replay families that are clean on the unchanged tree and cheap: run on every check as a bounded part (never counted as proved).
 # They cover code that is not under contract (schema front-ends, used-types closure, ...) and trees the deductive check cannot decide.
-ALWAYS_REPLAY = ("C02", "C04", "C05", "C08", "C09", "C10", "C11", "C12", "C13", "C17")
+ALWAYS_REPLAY = ("C01", "C02", "C04", "C05", "C08", "C09", "C10", "C11", "C12", "C13", "C17")
 
 
 def replay_part(pid, tier):
